@@ -55,6 +55,37 @@ func userSide(c *core.Ctx) map[*ssa.Function]bool {
 			}
 		}
 	}
+	// helpers called only (synchronously) from user-side functions run in the same frames
+	for changed := true; changed; {
+		changed = false
+		for _, fn := range c.AllFuncs {
+			if out[fn] || !core.InModule(fn) || fn.Parent() != nil || fn.Object() == nil || fn.Object().Exported() {
+				continue
+			}
+			sites := an.CallSitesOf(c, fn)
+			if len(sites) == 0 {
+				continue
+			}
+			all := true
+			for _, s := range sites {
+				if _, isCall := s.(*ssa.Call); !isCall || !out[s.Parent()] {
+					all = false
+				}
+			}
+			// not used as a value anywhere
+			if all && fn.Referrers() != nil {
+				for _, ref := range *fn.Referrers() {
+					if ci, ok := ref.(ssa.CallInstruction); !ok || ci.Common().Value != ssa.Value(fn) {
+						all = false
+					}
+				}
+			}
+			if all {
+				out[fn] = true
+				changed = true
+			}
+		}
+	}
 	return out
 }
 
